@@ -9,7 +9,8 @@
    STRESS seed n        free-running share, oracle only                                    → `STRESS done`
 
    Every call of the script is a *session* of the model and a sequence of its atomic steps
-   (`step .current`): L = start, acquire (when enabled);  T = start, try;  U/RU = unlock.  What the
+   (`step Variant.ofTree`): L = start, acquire (when enabled);  T = start, try and – after a failed
+   try – drop (the reference is given back before the call returns);  U/RU = unlock.  What the
    model leaves open – which parked call returns when the inner mutex becomes available – is
    decided here by the policy of Go's writer-preferring `sync.RWMutex`, observed at rest:
      * `Lock` returns at once iff nobody holds the mutex; `RLock` iff no writer holds it and no
@@ -78,7 +79,7 @@ def writerParked (st : St) (o : Nat) : Bool :=
 
 /-- the parked call of session `sess` returns: model step `acquire`, the goroutine now holds -/
 def grant (st : St) (sess : Nat) : St :=
-  match step .current st.s sess .acquire with
+  match step Variant.ofTree st.s sess .acquire with
   | none => st
   | some (s', _) =>
     { st with s := s', waitQ := st.waitQ.filter (· != sess),
@@ -114,9 +115,14 @@ def dropHeld (w : Bool) (k : Nat) (held : List (Bool × Nat × Nat)) : List (Boo
 
 /-- second half of `TryLock` by goroutine `g` (session `sess`, reference already taken) -/
 def opTry (st : St) (g sess k : Nat) : St × String :=
-  match NamedLocker.step .current st.s sess .try with
+  match NamedLocker.step Variant.ofTree st.s sess .try with
   | some (s2, .tryOk) => (setG { st with s := s2 } g (fun x => { x with held := x.held ++ [(true, k, sess)] }), "try-ok")
-  | some (s2, _) => ({ st with s := s2 }, "try-failed")
+  | some (s2, _) =>
+    -- the failed call gives its reference back before it returns (nothing to do in the variant
+    -- `leakyTry`, where the session is idle already)
+    match NamedLocker.step Variant.ofTree s2 sess .drop with
+    | some (s3, _) => ({ st with s := s3 }, "try-failed")
+    | none => ({ st with s := s2 }, "try-failed")
   | none => (st, "model-stuck")
 
 /-- does `Lock` (`w`) / `RLock` on `lockCtr` `obj` return at once? -/
@@ -126,7 +132,7 @@ def canAcquire (st : St) (obj : Nat) (w : Bool) : Bool :=
 /-- second half of `Lock` (`w`) / `RLock` by goroutine `g`: returns at once or parks -/
 def opAcquire (st : St) (g sess k : Nat) (w : Bool) : St × String :=
   if canAcquire st ((objOf st sess).getD 0) w then
-    match NamedLocker.step .current st.s sess .acquire with
+    match NamedLocker.step Variant.ofTree st.s sess .acquire with
     | some (s2, _) => (setG { st with s := s2 } g (fun x => { x with held := x.held ++ [(w, k, sess)] }), "acquired")
     | none => (st, "model-stuck")
   else
@@ -136,7 +142,7 @@ def opAcquire (st : St) (g sess k : Nat) (w : Bool) : St × String :=
 def opStart (st : St) (g : Nat) (o : String) (k : Nat) : St × String :=
   let sess := st.nextSess
   let act : Act := if o == "L" then .startL k else if o == "R" then .startR k else .startT k
-  match NamedLocker.step .current st.s sess act with
+  match NamedLocker.step Variant.ofTree st.s sess act with
   | none => (st, "model-stuck")
   | some (s1, _) =>
     let st1 : St := { st with s := s1, nextSess := sess + 1 }
@@ -145,7 +151,7 @@ def opStart (st : St) (g : Nat) (o : String) (k : Nat) : St × String :=
 /-- `Unlock` (`w`) / `RUnlock` of the entry `h` goroutine `g` holds -/
 def opRelease (st : St) (g k : Nat) (w : Bool) (h : Bool × Nat × Nat) : St × String :=
   let obj := (objOf st h.2.2).getD 0
-  match NamedLocker.step .current st.s h.2.2 .unlock with
+  match NamedLocker.step Variant.ofTree st.s h.2.2 .unlock with
   | none => (st, "model-stuck")
   | some (s1, r) =>
     let st1 := setG { st with s := s1 } g (fun x => { x with held := dropHeld w k x.held })
